@@ -417,8 +417,20 @@ func runSelector(s *sim.Sim) {
 	}
 	shuffled := func() []string {
 		out := make([]string, len(servers))
-		for i, j := range s.Perm(len(servers), "list-order") {
-			out[i] = servers[j]
+		switch s.Choose(6, "list-order-kind") {
+		case 0: // as discovered in plain string order (10.0.0.10 before 10.0.0.2)
+			copy(out, servers)
+			sort.Strings(out)
+		case 1: // natural order
+			copy(out, servers)
+		case 2: // reversed
+			for i := range servers {
+				out[len(servers)-1-i] = servers[i]
+			}
+		default:
+			for i, j := range s.Perm(len(servers), "list-order") {
+				out[i] = servers[j]
+			}
 		}
 		return out
 	}
